@@ -17,10 +17,13 @@ import (
 
 // SchedSpec selects the schedule of a concurrent case.
 type SchedSpec struct {
-	Kind     int    `json:"kind"` // 0 single long preemption, 1 PCT, 2 random walk
+	Kind     int    `json:"kind"` // 0 single long preemption, 1 PCT, 2 random walk, 3 double preemption
 	A        int    `json:"a,omitempty"`
 	Point    string `json:"point,omitempty"`
 	N        int    `json:"n,omitempty"`
+	B        int    `json:"b,omitempty"` // double preemption: second task
+	PointB   string `json:"point_b,omitempty"`
+	NB       int    `json:"nb,omitempty"`
 	Order    []int  `json:"order,omitempty"`
 	Prio     []int  `json:"prio,omitempty"`
 	ChangeAt []int  `json:"change_at,omitempty"`
@@ -37,6 +40,8 @@ func (sp SchedSpec) policy() policy {
 		return singlePreemption{a: sp.A, point: sp.Point, n: n, order: sp.Order}
 	case 1:
 		return pct{prio: sp.Prio, changeAt: sp.ChangeAt}
+	case 3:
+		return doublePreemption{a: sp.A, b: sp.B, pa: sp.Point, pb: sp.PointB, na: max(sp.N, 1), nb: max(sp.NB, 1), order: sp.Order, phase: new(int)}
 	}
 	return randomWalk{choices: sp.Choices}
 }
